@@ -1138,6 +1138,11 @@ impl ProtocolState {
             }
         }
 
+        // nor has one that is encoded but still waiting for its write completion
+        if self.pending_write_completion_operations.iter().any(|id| self.is_connect_packet(*id)) {
+            return true;
+        }
+
         self.high_priority_operation_queue.iter().any(|id| self.is_connect_packet(*id))
     }
 
